@@ -105,3 +105,22 @@ Theorem C11_star_literal_old_refuted :
   new_reports w_star_literal = [].
 Proof. exact star_literal_old_refuted. Qed.
 Print Assumptions C11_star_literal_old_refuted.
+
+(* ---- several placeholders in one script: the scan of checkExprsIn stops at the
+   first placeholder that drew a diagnostic, so a second offending placeholder
+   of the same script is not reported (known finding
+   C11-later-placeholder-not-checked: the project's expected output
+   testdata/err/context_availability.out pins the behaviour); with the loop
+   continued both are *)
+From AL Require Expr.Template Expr.TemplateStop.
+
+Theorem C11_later_placeholder_refuted :
+  let o := Template.check_exprs_in TemplateStop.sem_always_err "${{x}} ${{x}}" 7 10 false in
+  Template.lo_diags o = [(3, (7, 13))] /\ List.length (Template.lo_calls o) = 1 /\ Template.lo_ts o = None.
+Proof. exact TemplateStop.later_placeholder_unchecked. Qed.
+Print Assumptions C11_later_placeholder_refuted.
+
+Theorem C11_later_placeholder_repaired :
+  TemplateStop.template_loop_cont TemplateStop.sem_always_err 14 "${{x}} ${{x}}" 0 7 10 false = [(3, (7, 13)); (10, (7, 20))].
+Proof. exact TemplateStop.later_placeholder_checked_when_continued. Qed.
+Print Assumptions C11_later_placeholder_repaired.
